@@ -354,6 +354,19 @@ class AnsiString:
                 # Re-add directly above the new settings so that they stay below the settings which start here
                 self._fmts[start].add[len(ansi_settings):len(ansi_settings)] = remove_and_add_settings
 
+        else:
+            # Where settings already in effect are restarted within the range (removed and re-added at the same index
+            # because of a previous non-topmost apply), the new settings need to be restarted directly above them
+            for idx, settings_point in self._fmts.items():
+                if idx > start and idx < end:
+                    restarted = [
+                        i for i, s in enumerate(settings_point.add)
+                        if __class__._find_setting_reference(s, settings_point.rem) >= 0
+                    ]
+                    if restarted:
+                        settings_point.rem.extend(ansi_settings)
+                        settings_point.add[restarted[-1]+1:restarted[-1]+1] = ansi_settings
+
         # Remove settings
         if end not in self._fmts:
             self._fmts[end] = _AnsiSettingPoint()
